@@ -299,22 +299,22 @@ def run_shard(shard: dict, ctx, res, only=None) -> None:
 
             def f_ec(start=start, rk=rk, n_eff=n_eff):
                 chans = [0, 3, C - 1]
-                names = fil.extract_chans(np.array(chans), outfile_base=str(wd / "ec"), **rk)
+                names = fil.extract_chans(np.array(chans), outfile_base=str(wd / "ec"), batch_size=2, **rk)
                 for c, nm in zip(chans, names):
                     h, nb = hdr_of(nm)
                     chk.check("Filterbank.extract_chans", [c, start], h, shape=(n_eff, 1), src=[[c]], start=start, file_nbits=disk_nbits(nb, n_eff, 1), kind="file")
 
             guard("Filterbank.extract_chans", [start], f_ec)
-            for cs, nch, cps in [(0, 8, 4), (2, 4, 2), (1, 6, 3), (4, 4, 4)]:
-                def f_eb(cs=cs, nch=nch, cps=cps, start=start, rk=rk, n_eff=n_eff):
-                    names = fil.extract_bands(cs, nch, cps, outfile_base=str(wd / "eb"), **rk)
+            for cs, nch, cps, bsz in [(0, 8, 4, 200), (2, 4, 2, 200), (1, 6, 3, 200), (4, 4, 4, 200), (0, 8, 2, 1), (0, 8, 2, 3), (2, 6, 2, 2)]:
+                def f_eb(cs=cs, nch=nch, cps=cps, bsz=bsz, start=start, rk=rk, n_eff=n_eff):
+                    names = fil.extract_bands(cs, nch, cps, outfile_base=str(wd / "eb"), batch_size=bsz, **rk)
                     for i, nm in enumerate(names):
                         h, nb = hdr_of(nm)
-                        chk.check("Filterbank.extract_bands", [cs, nch, cps, i, start], h, shape=(n_eff, cps),
+                        chk.check("Filterbank.extract_bands", [cs, nch, cps, bsz, start], h, shape=(n_eff, cps),
                                   src=[[c] for c in range(cs + i * cps, cs + (i + 1) * cps)], start=start,
                                   file_nbits=disk_nbits(nb, n_eff, cps), kind="file")
 
-                guard("Filterbank.extract_bands", [cs, nch, cps, start], f_eb)
+                guard("Filterbank.extract_bands", [cs, nch, cps, bsz, start], f_eb)
             for nsub in (1, 2, 4, 8):
                 def f_sb(nsub=nsub, start=start, rk=rk, n_eff=n_eff):
                     d = np.asarray(H.get_dmdelays(dm_pos))
